@@ -207,7 +207,8 @@ int main(int argc, char **argv) {
     int orient_mode = (int) A.geti("orient", 0);
     vg::plus_heavy_k2() = A.has("plus-heavy-k2");
     vg::edge_order_mode() = (int) A.geti("eorder", 0);
-    vv::out_kind() = (int) A.geti("outiter", 0);     // 1: positional output iterator into a pre-sized vector
+    vv::out_kind() = (int) A.geti("outiter", 0);
+    vv::wmap_kind() = (int) A.geti("wmap", 0);        // 1: exterior weight map, decoy values in the interior property     // 1: positional output iterator into a pre-sized vector
     auto unit_graph0 = [&](uint64_t u) { uint64_t uu = ((u / wchunks) + seed) % ngraphs; return blob ? blob->build(uu) : fams.empty() ? vg::graph_from_mask(n, uu) : vg::relabel(vg::family(fams[uu / relabel_n]), (int) (uu % relabel_n)); };
     auto unit_graph = [&](uint64_t u) { vg::EdgeList g = unit_graph0(u); vg::order_edges(g); vg::orient(g, orient_mode); if (vg::plus_heavy_k2()) { g.e.push_back({g.n, g.n + 1}); g.n += 2; } return g; };
     auto describe = [&](uint64_t u, uint64_t sub, uint64_t) {
